@@ -29,15 +29,19 @@ ChkPair(e) ==
                /\ e.out = Ser12(PairDlog(FromBE(e.ka), FromBE(e.kb)))
                /\ (e.full => e.out = Ser12(Pair(P, Qp)))
 ChkPairLaws(e) ==
+    LET nodl == "nodl" \in DOMAIN e /\ e.nodl          \* P is a crafted representative of a point with unknown discrete logarithm
+    IN
     /\ JacOK("G1", e.p) /\ JacOK("G2", e.q) /\ JacOK("G1", e.p2) /\ JacOK("G2", e.q2)
     /\ \A x \in {e.e_pq, e.e_p2q, e.e_pq2, e.e_pp2_q, e.e_p_qq2, e.mul_p, e.mul_q, e.e_cp_dq, e.e_pow, e.erm1_e} : GtCanon(x)
-    /\ AbsJ("G1", e.p) = Dl("G1", e.ka) /\ AbsJ("G2", e.q) = Dl("G2", e.kb)
+    /\ (nodl \/ AbsJ("G1", e.p) = Dl("G1", e.ka)) /\ AbsJ("G2", e.q) = Dl("G2", e.kb)
     /\ AbsJ("G1", e.p2) = Dl("G1", e.kc) /\ AbsJ("G2", e.q2) = Dl("G2", e.kd)
-    /\ e.e_pq = Ser12(PairDlog(FromBE(e.ka), FromBE(e.kb)))
+    /\ (IF nodl THEN ("full" \in DOMAIN e /\ e.full => e.e_pq = Ser12(Pair(AbsJ("G1", e.p), AbsJ("G2", e.q))))
+                ELSE e.e_pq = Ser12(PairDlog(FromBE(e.ka), FromBE(e.kb))))
+    /\ e.e_p2q = Ser12(PairDlog(FromBE(e.kc), FromBE(e.kb)))
     /\ e.mul_p = Ser12(X!Mul(D12(e.e_pq), D12(e.e_p2q))) /\ e.e_pp2_q = e.mul_p            \* e(P+P',Q) = e(P,Q) e(P',Q)
     /\ e.mul_q = Ser12(X!Mul(D12(e.e_pq), D12(e.e_pq2))) /\ e.e_p_qq2 = e.mul_q            \* e(P,Q+Q') = e(P,Q) e(P,Q')
-    /\ e.e_pp2_q = Ser12(PairDlog(BAddMod(FromBE(e.ka), FromBE(e.kc), R), FromBE(e.kb)))
-    /\ e.e_p_qq2 = Ser12(PairDlog(FromBE(e.ka), BAddMod(FromBE(e.kb), FromBE(e.kd), R)))
+    /\ (nodl \/ e.e_pp2_q = Ser12(PairDlog(BAddMod(FromBE(e.ka), FromBE(e.kc), R), FromBE(e.kb))))
+    /\ (nodl \/ e.e_p_qq2 = Ser12(PairDlog(FromBE(e.ka), BAddMod(FromBE(e.kb), FromBE(e.kd), R))))
     /\ e.e_cp_dq = e.e_pow                                                                   \* e(cP, dQ) = e(P,Q)^(cd)
     /\ e.e_pow = Ser12(GtPowN(D12(e.e_pq), BMulMod(FromBE(e.kc), FromBE(e.kd), R)))
     /\ e.erm1_e = OneBytes                                                                   \* g^(r-1) * g = 1
